@@ -46,7 +46,7 @@ func Load(repoDir string, patterns []string) (*World, error) {
 	if len(errs) > 0 {
 		return nil, fmt.Errorf("load errors: %s", strings.Join(errs, "; "))
 	}
-	prog, spkgs := ssautil.Packages(pkgs, ssa.InstantiateGenerics)
+	prog, spkgs := ssautil.Packages(pkgs, ssa.InstantiateGenerics|ssa.GlobalDebug)
 	w := &World{RepoDir: repoDir, Pkgs: pkgs, Prog: prog, SSAPkgs: map[string]*ssa.Package{}, Funcs: map[string]*ssa.Function{}, PkgDir: map[string]string{}}
 	for i, sp := range spkgs {
 		if sp == nil {
